@@ -15,7 +15,7 @@ GATES = {
     'quick': {'evaluations': 2000, 'mode:noedit': 150, 'mode:edit': 150, 'mode:raise': 150, 'mode:remove': 100, 'mode:add': 100,
               'mode:single-edit': 100, 'mode:rekey': 80, 'entries_rekeyed': 100, 'graphs_with_absolute_include': 100, 'graphs_with_glob_characters_in_directory_names': 200, 'added:empty-built': 10, 'added:empty-parsed': 10, 'added:parsed-crlf': 10, 'edit_kind:clear': 50, 'edit_kind:append': 50, 'mode:single-noedit': 50, 'mode:single-raise': 50, 'mode:unmatched-include': 50,
               'spelling:abs': 200, 'spelling:dot': 200, 'spelling:bare': 200, 'spelling:updown': 200, 'spelling:dslash': 150, 'files_crlf_edited': 150,
-              'graphs_with_cycle_or_diamond': 200, 'graphs_with_glob': 200, 'audit_events': 5000},
+              'graphs_with_cycle_or_diamond': 200, 'graphs_with_glob': 200, 'audit_events': 5000, 'linked_file_sessions': 250},
     'thorough': {'evaluations': 35000, 'files_crlf_edited': 4000},
 }
 RULE = ('case = one temporary tree (outside /repo and /verif, removed afterwards) of 1..7 (thorough ..12) files in nested directories whose '
@@ -184,7 +184,76 @@ def _pinned_symlink(col):
         shutil.rmtree(root, ignore_errors=True)
 
 
+def _link_case(col, r, idx):
+    """A file of the session that is a symbolic link, or has a second (hard-linked) name: the edit goes into the file; the link stays
+    a link, the other name shows the new content, and no directory gains or loses an entry. False = a violation was reported."""
+    root = os.path.realpath(tempfile.mkdtemp(prefix='beanmon-c16-'))
+    try:
+        nl = r.choice(['\n', '\r\n'])
+        os.makedirs(os.path.join(root, 'book'))
+        os.makedirs(os.path.join(root, 'shared'))
+        real = os.path.join(root, 'shared', 'accounts.bean')
+        original = (f'2000-01-01 open Assets:F1  ; c{nl}2000-01-01 close Assets:Z{nl}').encode()
+        with open(real, 'wb') as fh:
+            fh.write(original)
+        kind = r.choice(['symlink-relative', 'symlink-absolute', 'hardlink'])
+        link = os.path.join(root, 'book', 'accounts.bean')
+        if kind == 'hardlink':
+            os.link(real, link)
+        else:
+            os.symlink('../shared/accounts.bean' if kind == 'symlink-relative' else real, link)
+        main = os.path.join(root, 'book', 'main.bean')
+        with open(main, 'wb') as fh:
+            fh.write(f'include "accounts.bean"{nl}'.encode())
+        route = r.choice(['recursive-through-include', 'edit_file-on-the-link', 'recursive-entry-is-the-link'])
+        tag = str(idx % 5)          # (tags 5 and 6 are the clear / append edits)
+        listing = lambda: sorted((os.path.relpath(os.path.join(dp, n), root), os.path.islink(os.path.join(dp, n)))
+                                 for dp, dn, fn in os.walk(root) for n in dn + fn)
+        before = listing()
+        target_before = os.readlink(link) if kind != 'hardlink' else None
+        ed = editor_lib.Editor(common.parser())
+        col.ev()
+        col.count('linked_file_sessions')
+        col.count(f'link:{kind}:{route}')
+        wit = {'layout': f'book/main.bean includes accounts.bean; book/accounts.bean is a {kind} of shared/accounts.bean', 'route': route,
+               'original': original.decode(), 'edit': f'last directive: account := Assets:Edited{tag}'}
+        try:
+            if route == 'edit_file-on-the-link':
+                with ed.edit_file(link) as f:
+                    the_edit(f, tag)
+            else:
+                with ed.edit_file_recursive(main if route == 'recursive-through-include' else link) as files:
+                    for k, f in files.items():
+                        if os.path.basename(k) == 'accounts.bean':
+                            the_edit(f, tag)
+        except Exception as e:
+            col.violation(f'linked-file:raised:{kind}', f'{route}: {type(e).__name__}: {e}', wit)
+            return False
+        col.nontrivial('link', kind, route, tag, nl)
+        exp = expected_bytes(original, tag)
+        problems = []
+        if kind != 'hardlink' and (not os.path.islink(link) or os.readlink(link) != target_before):
+            problems.append(('link-replaced', 'book/accounts.bean is no longer the symbolic link it was'))
+        for name in (real, link):
+            with open(name, 'rb') as fh:
+                if fh.read() != exp:
+                    problems.append(('other-name-stale', f'{os.path.relpath(name, root)} does not hold the printed model'))
+        if listing() != before:
+            problems.append(('directory-entries-changed', f'entries before {before}, after {listing()}'))
+        with open(main, 'rb') as fh:
+            if fh.read() != f'include "accounts.bean"{nl}'.encode():
+                problems.append(('unedited-file-changed', 'book/main.bean changed'))
+        if problems:
+            col.violation(f'linked-file:{problems[0][0]}:{kind}', f'{route}: ' + '; '.join(m for _, m in problems), wit)
+            return False
+        return True
+    finally:
+        shutil.rmtree(root, ignore_errors=True)
+
+
 def run_case(col, r, idx):
+    if idx % 6 == 0 and not _link_case(col, r, idx):
+        return
     root = os.path.realpath(tempfile.mkdtemp(prefix='beanmon-c16-'))
     STATE['root'] = root
     try:
